@@ -193,6 +193,13 @@ func C02(o *world.Obs) *Result {
 		v304 := o.Validated304(ex)
 		reqCC := model.ParseCC(ReqHeader(ex.Req))
 		reason, unspec := validationRequired(o, ex, src)
+		if reason == "request-max-age-exceeded" && v304 == nil && sieInPlay(o, ex, src, reqCC) {
+			// a request max-age is not among the directives C02 lists as immune to
+			// stale-if-error: not judged when the validation failed and stale-if-error is present
+			r.Unspec("c02-max-age-vs-stale-if-error")
+			reason = ""
+			unspec = false
+		}
 		if reason != "" {
 			r.NonTrivial = true
 			kind := "unvalidated-reuse:" + reason
@@ -289,6 +296,12 @@ func C18(o *world.Obs) *Result {
 			}
 			continue
 		}
+		if Tampered(o) {
+			// stored bytes were altered behind the cache's back: what it holds is no longer the
+			// reply the model knows, so only "no origin contact" is judged
+			r.Unspec("c18-tampered-store")
+			continue
+		}
 		reason, unspec := validationRequired(o, ex, src)
 		switch {
 		case reason != "":
@@ -300,4 +313,14 @@ func C18(o *world.Obs) *Result {
 		}
 	}
 	return r
+}
+
+func sieInPlay(o *world.Obs, ex *world.Exchange, src *world.Call, reqCC model.CC) bool {
+	failed := false
+	for _, c := range o.FgCalls(ex) {
+		if c.Kind == "err" || (c.Kind == "resp" && sieStatus[c.Status]) {
+			failed = true
+		}
+	}
+	return failed && hasSIE(Versions(o, src, ex.StartSeq), reqCC)
 }
